@@ -19,7 +19,7 @@ func init() {
 		Explanation: "Structural necessary conditions for 'REST requests are served only to allowed callers': (R1) in Command.ServeHTTP the dynamic call of the ResponseFunc is cut from the entry by CheckAccess(...)==nil and by a usable ucrednetGet result, the user checked is userFromRequest(state, r) of the very request, and the handler/access phi pairs GET with ReadAccess and PUT/POST with WriteAccess; (R2) the handler fields are read nowhere else and written only by package initialisation; (R3) every Command literal sets the access checker its methods need; (R4) each access checker returns nil only across its declared gates (socket, uid, user, polkit, active interface connection); (R5) the peer-credential parser only succeeds with both pid and uid parsed, and the address regexp and the formatter share one literal skeleton with separator-free classes.",
 		NotDecided:  "polkit itself; cgroup-based identification of the calling snap; the net/http routing layer.",
 		Assumptions: []string{"function variables used for mocking (ucrednetGet, checkPolkitAction, requireInterfaceApiAccess, error responders) are only reassigned by test code; R4 verifies there is no non-test store"},
-		Run:         func(c *Ctx) { runC26(c); runC26x(c) },
+		Run:         func(c *Ctx) { runC26(c); runC26x(c); runC26z(c) },
 	})
 }
 
